@@ -596,7 +596,7 @@ def radiotap_fcs_check(chk, exe, ops):
     nothing follows the frame"""
     ops = [o for o in ops if o.startswith("pkt radiotap ") or o.startswith("reser radiotap ")]
     impl, _ = core.run_harness_lines(exe, (), ops, CASE_START)
-    n = 0
+    n, reported = 0, corr.collections.Counter()
     for o, r in zip(ops, impl):
         m = re.match(r"ok bytes=([0-9a-f]+) L=(\S+)", r)
         if not m:
@@ -616,7 +616,8 @@ def radiotap_fcs_check(chk, exe, ops):
             if int.from_bytes(b[-4:], "little") != zlib.crc32(frame):
                 bad = f"radiotap.fcs zlib={zlib.crc32(frame):08x} got={int.from_bytes(b[-4:], 'little'):08x}"
         n += 1
-        if bad:
+        if bad and reported[bad.split(" ")[0]] < 2:       # two replays per clause are enough
+            reported[bad.split(" ")[0]] += 1
             chk.violation("implementation violates the spec oracle [C05]: python/zlib " + bad, [o, "# impl:  " + r],
                           signature={"kind": "spec", "clause": bad.split(" ")[0], "op": o.split(" ")[0], "oracle": "zlib"})
     return n
